@@ -53,8 +53,15 @@ func c16Cases(tier string, seed int64) []string {
 	for i := 0; i < n; i++ {
 		l = append(l, fmt.Sprintf("net:%d", i))
 	}
+	if c16PeerCases != nil {
+		l = append(l, c16PeerCases(tier)...)
+	}
 	return l
 }
+
+// set by c16_peer.go (needs the verif build tag, like C15's environment it reuses)
+var c16PeerCases func(tier string) []string
+var c16PeerRun func(c *fw.C, caseID string)
 
 func c16ChainHashes(n *simnet.Node) []types.Hash {
 	st := n.Chain.GetFrontierMomentumStore()
@@ -199,6 +206,10 @@ func c16Corrupt(batch []*nom.DetailedMomentum, i int, kind string, r *rand.Rand)
 }
 
 func c16Run(c *fw.C, caseID string) {
+	if strings.HasPrefix(caseID, "peer:") && c16PeerRun != nil {
+		c16PeerRun(c, caseID)
+		return
+	}
 	r := c.Rand(caseID)
 	base := c.ScratchDir("c16")
 	defer os.RemoveAll(base)
